@@ -41,3 +41,56 @@ func TestVerifC03Engine(t *testing.T) {
 		return c03Server{s}, nil
 	})
 }
+
+// Mount driver (spec/RouterMount.tla): the caller's slices are real []Route values that live for
+// the whole case; every mount passes them (or one element) to the public AddRoutes / AddRoute
+// with WithPrefix options, exactly as an application would, on one server after the other.
+type c03World struct {
+	slices [][]Route
+	s      *Server
+}
+
+func (w *c03World) MakeSlice(routes []c03.RouteSpec) {
+	rs := make([]Route, 0, len(routes))
+	for _, r := range routes {
+		rs = append(rs, Route{Method: r.Method, Path: r.Path, Handler: r.Handler})
+	}
+	w.slices = append(w.slices, rs)
+}
+
+func (w *c03World) NewServer(notFound http.Handler) error {
+	var opts []Option
+	if notFound != nil {
+		opts = append(opts, WithNotFoundHandler(notFound))
+	}
+	s, err := NewServer(Config{}, opts...)
+	w.s = s
+	return err
+}
+
+func c03Prefixes(groups []string) []RouteOption {
+	var opts []RouteOption
+	for _, g := range groups {
+		opts = append(opts, WithPrefix(g))
+	}
+	return opts
+}
+
+func (w *c03World) AddRoutes(s int, groups []string) {
+	w.s.AddRoutes(w.slices[s], c03Prefixes(groups)...)
+}
+
+func (w *c03World) AddRoute(s, j int, groups []string) {
+	w.s.AddRoute(w.slices[s][j], c03Prefixes(groups)...)
+}
+
+func (w *c03World) Bind() error { return w.s.ng.bindRoutes(w.s.router) }
+
+func (w *c03World) ServeHTTP(rw http.ResponseWriter, r *http.Request) { w.s.router.ServeHTTP(rw, r) }
+
+func (w *c03World) Look(s, j int) (string, string) { return w.slices[s][j].Method, w.slices[s][j].Path }
+
+func TestVerifC03Mount(t *testing.T) {
+	logx.Disable()
+	c03.DriveMounts("C03:mount:", func() c03.World { return &c03World{} })
+}
